@@ -9,7 +9,7 @@ use std::{
 use futures::FutureExt;
 
 use crate::{
-    program::{BoxFut, Kind, Program, Reader, Val, eval},
+    program::{Abort, BoxFut, Kind, Program, Reader, Val, eval},
     queries::{Ev, Inv},
 };
 
@@ -45,6 +45,14 @@ pub struct Model<'p> {
     pub world: HashMap<u32, Val>,
     memo: RefCell<HashMap<u32, Val>>,
     stack: RefCell<Vec<u32>>,
+    /// cyclic mode: members of a dependency cycle found in this epoch
+    members: RefCell<HashSet<u32>>,
+    pub cyclic: bool,
+    /// cyclic mode: the values of this epoch depend on the request order
+    pub ambiguous: bool,
+    pub ambiguous_epochs: u64,
+    pub concrete_cycle_accepts: u64,
+    pub cyclic_epochs: u64,
     pub epoch: u64,
     pub execs: HashMap<u32, Vec<ExecRec>>,
     /// firewalls repaired through a RepairFirewall pass in this epoch
@@ -74,21 +82,48 @@ pub struct Model<'p> {
 struct ModelReader<'a, 'p>(&'a Model<'p>);
 
 impl Reader for ModelReader<'_, '_> {
-    fn read(&self, n: u32) -> BoxFut<'_, Val> {
-        let v = self.0.fs(n);
+    fn read(&self, n: u32) -> BoxFut<'_, Result<Val, Abort>> {
+        let v = self.0.read_for_model(n);
         Box::pin(async move { v })
     }
-    fn read_join(&self, ns: &[u32]) -> BoxFut<'_, Vec<Val>> {
-        let v: Vec<Val> = ns.iter().map(|n| self.0.fs(*n)).collect();
+    fn read_join(&self, ns: &[u32]) -> BoxFut<'_, Result<Vec<Val>, Abort>> {
+        let v: Result<Vec<Val>, Abort> =
+            ns.iter().map(|n| self.0.read_for_model(*n)).collect();
         Box::pin(async move { v })
     }
-    fn read_unord(&self, ns: &[u32]) -> BoxFut<'_, Vec<Val>> {
+    fn read_unord(&self, ns: &[u32]) -> BoxFut<'_, Result<Vec<Val>, Abort>> {
         self.read_join(ns)
     }
 }
 
 // The model is only used from one thread; the Reader trait wants Sync.
 unsafe impl Sync for ModelReader<'_, '_> {}
+
+/// Evaluates an expression to the end (no abort), recording every read.
+struct FullReader<'a, 'p>(&'a Model<'p>, RefCell<Vec<u32>>);
+
+impl Reader for FullReader<'_, '_> {
+    fn read(&self, n: u32) -> BoxFut<'_, Result<Val, Abort>> {
+        self.1.borrow_mut().push(n);
+        let v = self.0.memo.borrow().get(&n).cloned().unwrap_or_default();
+        Box::pin(async move { Ok(v) })
+    }
+    fn read_join(&self, ns: &[u32]) -> BoxFut<'_, Result<Vec<Val>, Abort>> {
+        let v: Vec<Val> = ns
+            .iter()
+            .map(|n| {
+                self.1.borrow_mut().push(*n);
+                self.0.memo.borrow().get(n).cloned().unwrap_or_default()
+            })
+            .collect();
+        Box::pin(async move { Ok(v) })
+    }
+    fn read_unord(&self, ns: &[u32]) -> BoxFut<'_, Result<Vec<Val>, Abort>> {
+        self.read_join(ns)
+    }
+}
+
+unsafe impl Sync for FullReader<'_, '_> {}
 
 impl<'p> Model<'p> {
     pub fn new(prog: &'p Program) -> Self {
@@ -99,6 +134,12 @@ impl<'p> Model<'p> {
             world: HashMap::new(),
             memo: RefCell::new(HashMap::new()),
             stack: RefCell::new(Vec::new()),
+            members: RefCell::new(HashSet::new()),
+            cyclic: false,
+            ambiguous: false,
+            ambiguous_epochs: 0,
+            concrete_cycle_accepts: 0,
+            cyclic_epochs: 0,
             epoch: 0,
             execs: HashMap::new(),
             touched: HashSet::new(),
@@ -117,15 +158,44 @@ impl<'p> Model<'p> {
         }
     }
 
-    pub fn clear_memo(&self) { self.memo.borrow_mut().clear(); }
+    pub fn clear_memo(&self) {
+        self.memo.borrow_mut().clear();
+        self.members.borrow_mut().clear();
+    }
+
+    /// A dependency read performed by the model's evaluation of the node on
+    /// top of the stack.
+    fn read_for_model(&self, n: u32) -> Result<Val, Abort> {
+        if !self.cyclic {
+            return Ok(self.fs(n));
+        }
+        let reader = *self.stack.borrow().last().expect("a reader is on the stack");
+        if !self.memo.borrow().contains_key(&n) {
+            if let Some(pos) = self.stack.borrow().iter().position(|x| *x == n) {
+                // the read closes a cycle onto the evaluation stack: every
+                // node from the target to the top is a member
+                let members: Vec<u32> = self.stack.borrow()[pos..].to_vec();
+                self.members.borrow_mut().extend(members);
+                return Err(Abort);
+            }
+        }
+        let v = self.fs(n);
+        // a member stops at the first read that returns after it was marked
+        if self.members.borrow().contains(&reader) {
+            return Err(Abort);
+        }
+        Ok(v)
+    }
 
     /// From-scratch value of node `n` on the currently committed inputs.
+    /// In cyclic mode: depth-first evaluation in read order with cycle
+    /// defaults, memoised per epoch in the order of the calls.
     pub fn fs(&self, n: u32) -> Val {
         if let Some(v) = self.memo.borrow().get(&n) {
             return v.clone();
         }
         assert!(
-            !self.stack.borrow().contains(&n),
+            self.cyclic || !self.stack.borrow().contains(&n),
             "from-scratch oracle: unexpected cycle at node {n}"
         );
         self.stack.borrow_mut().push(n);
@@ -140,13 +210,126 @@ impl<'p> Model<'p> {
                 .get(&n)
                 .cloned()
                 .unwrap_or_else(|| self.world.get(&n).cloned().unwrap_or_default()),
-            _ => eval(&self.prog.nodes[n as usize].expr, &ModelReader(self))
-                .now_or_never()
-                .expect("oracle evaluation never suspends"),
+            k => {
+                let r = eval(&self.prog.nodes[n as usize].expr, &ModelReader(self))
+                    .now_or_never()
+                    .expect("oracle evaluation never suspends");
+                if self.members.borrow().contains(&n) {
+                    crate::queries::scc_default(k)
+                } else {
+                    r.expect("a non-member is never aborted")
+                }
+            }
         };
         self.stack.borrow_mut().pop();
         self.memo.borrow_mut().insert(n, v.clone());
         v
+    }
+
+    pub fn is_member(&self, n: u32) -> bool { self.members.borrow().contains(&n) }
+
+    /// Is `n` on a cycle of the concrete dependency graph of this epoch, i.e.
+    /// the graph whose edges are all reads each node performs when its
+    /// expression is evaluated to the end over the model's current values?
+    /// (The depth-first model stops a member at its first aborted read; the
+    /// engine may verify further recorded dependencies of that member and so
+    /// close a cycle through a node the model never put on its stack.)
+    pub fn on_concrete_cycle(&self, n: u32) -> bool {
+        // make sure every node has a value
+        for i in 0..self.prog.len() {
+            if self.prog.kind(i) == Kind::In && !self.inputs.contains_key(&i) {
+                continue;
+            }
+            let _ = self.fs(i);
+        }
+        let edges = |m: u32| -> Vec<u32> {
+            if matches!(self.prog.kind(m), Kind::In | Kind::Ex) {
+                return vec![];
+            }
+            let fr = FullReader(self, RefCell::new(Vec::new()));
+            let _ = eval(&self.prog.nodes[m as usize].expr, &fr).now_or_never();
+            fr.1.into_inner()
+        };
+        let mut seen = HashSet::new();
+        let mut work = edges(n);
+        while let Some(m) = work.pop() {
+            if m == n {
+                return true;
+            }
+            if seen.insert(m) {
+                work.extend(edges(m));
+            }
+        }
+        false
+    }
+
+    /// no cycle is reachable from `n` through the static read targets
+    pub fn static_acyclic(&self, n: u32) -> bool {
+        fn go(p: &Program, n: u32, stack: &mut Vec<u32>, done: &mut HashSet<u32>) -> bool {
+            if stack.contains(&n) {
+                return false;
+            }
+            if done.contains(&n) {
+                return true;
+            }
+            stack.push(n);
+            for d in p.static_deps(n) {
+                if !go(p, d, stack, done) {
+                    return false;
+                }
+            }
+            stack.pop();
+            done.insert(n);
+            true
+        }
+        go(self.prog, n, &mut Vec::new(), &mut HashSet::new())
+    }
+
+    /// Cyclic mode, called when the inputs of an epoch are final: does the
+    /// depth-first model give the same values whichever node is asked
+    /// first?  If not, membership is order dependent and only nodes with a
+    /// cycle-free reachable subgraph are compared in this epoch.
+    pub fn classify_epoch(&mut self) {
+        if !self.cyclic {
+            return;
+        }
+        let n = self.prog.len();
+        let mut reference: Option<Vec<Val>> = None;
+        let mut ambiguous = false;
+        let mut any_member = false;
+        for first in 0..n {
+            self.clear_memo();
+            if self.prog.kind(first) == Kind::In && !self.inputs.contains_key(&first) {
+                continue;
+            }
+            let _ = self.fs(first);
+            let vals: Vec<Val> = (0..n)
+                .map(|i| {
+                    if self.prog.kind(i) == Kind::In && !self.inputs.contains_key(&i) {
+                        vec![]
+                    } else {
+                        self.fs(i)
+                    }
+                })
+                .collect();
+            any_member |= !self.members.borrow().is_empty();
+            match &reference {
+                None => reference = Some(vals),
+                Some(r) => {
+                    if *r != vals {
+                        ambiguous = true;
+                    }
+                }
+            }
+        }
+        self.clear_memo();
+        self.ambiguous = ambiguous;
+        if any_member {
+            self.cyclic_epochs += 1;
+        }
+        if ambiguous {
+            self.ambiguous_epochs += 1;
+        }
     }
 
     pub fn begin_epoch(&mut self) {
@@ -248,6 +431,11 @@ impl<'p> Model<'p> {
 
     /// A user-level request names `root` (called before the request runs).
     pub fn user_request(&mut self, root: u32) {
+        if self.cyclic {
+            // evaluate in the same order as the engine is asked
+            let _ = self.fs(root);
+            return;
+        }
         if self.last_exec(root).is_some() {
             // only a root on the Repair path triggers the firewall repair:
             // it has been computed before.  (If it was already verified in
@@ -285,7 +473,12 @@ impl<'p> Model<'p> {
     /// executor).
     pub fn serve(&mut self, n: u32, val: &Val, ctx: &str) -> Result<(), Failure> {
         self.serves += 1;
-        let old = self.last_exec(n).is_some_and(|r| r.epoch < self.epoch);
+        let old = !self.cyclic && self.last_exec(n).is_some_and(|r| r.epoch < self.epoch);
+        if self.cyclic && self.ambiguous && !self.static_acyclic(n) {
+            // order-dependent membership: only termination is claimed here
+            let _ = self.fs(n);
+            return Ok(());
+        }
         if old {
             self.serves_old += 1;
             if self.exposed.is_none() {
@@ -319,6 +512,18 @@ impl<'p> Model<'p> {
             }
         }
         let want = self.fs(n);
+        if *val != want
+            && self.cyclic
+            && *val == crate::queries::scc_default(self.prog.kind(n))
+            && self.on_concrete_cycle(n)
+        {
+            // the node is on a cycle of the concrete dependency graph that
+            // the depth-first model did not walk: both answers satisfy the
+            // property; the rest of the epoch is order dependent
+            self.ambiguous = true;
+            self.concrete_cycle_accepts += 1;
+            return Ok(());
+        }
         if *val != want {
             return Err(Failure {
                 class: "wrong_value".into(),
@@ -439,7 +644,7 @@ impl<'p> Model<'p> {
                     }
                 }
                 // a pure executor fed with right values returns the right one
-                if res.is_ok() && kind != Kind::Ex && self.exposed.is_none() {
+                if res.is_ok() && kind != Kind::Ex && self.exposed.is_none() && !self.cyclic {
                     let want = self.fs(n);
                     if want != value
                         && rec.reads.iter().all(|(d, v)| self.fs(*d) == *v)
